@@ -10,6 +10,7 @@ import (
 	"io"
 	"log/slog"
 	"net"
+	"os"
 	"runtime/debug"
 	"sync"
 	"testing"
@@ -52,6 +53,10 @@ func TestMain(m *testing.M) {
 	)
 	hx.Main(m)
 }
+
+// noConverse (development aid for mutant analysis) switches off the liveness-style
+// converse assertions ("the honest baseline completes"), leaving only the safety oracles.
+var noConverse = os.Getenv("C01_NO_CONVERSE") != ""
 
 const (
 	pNoise = "noise"
@@ -291,6 +296,11 @@ func completed(proto string, s *side, o *outcome) bool {
 type failer interface {
 	Fatalf(format string, args ...any)
 }
+
+// bail aborts a case from inside a bubble (harness-level setup failure): a panic is what
+// both bubble flavours carry out of the bubble; Fatalf must not be called on a *testing.T
+// from the bubble's goroutine.
+func bail(format string, args ...any) { panic(fmt.Sprintf(format, args...)) }
 
 // fl picks the failure sink: the rapid case when there is one, the test otherwise.
 func fl(t *testing.T, rt *rapid.T) failer {
